@@ -283,14 +283,25 @@ theorem iter_inv (C : Consts) (hstep : 0 < C.step) (sizes : Nat → Nat) (s s' :
       by_cases hm : s.streams.length = 0
       · rw [if_pos hm] at h; cases h
       · rw [if_neg hm] at h
-        generalize hidx : (match s.lastStream with | some i => i + 1 | none => 0) % s.streams.length = idx at h
+        generalize hsel : Sel.scan s.streams.length (streamStart s.lastStream)
+            (streamReady s.streams) s.streams.length = sel at h
+        cases sel with
+        | none => cases h
+        | some idx =>
+        simp only [] at h
         cases hst : s.streams[idx]? with
         | none => rw [hst] at h; cases h
         | some p =>
           rw [hst] at h
-          obtain ⟨items, c⟩ := p
+          obtain ⟨items, c0⟩ := p
           simp only [] at h
-          have hc := g.streams idx (items, c) hst
+          have hc0 := g.streams idx (items, c0) hst
+          -- consuming one unit of readiness touches nothing the invariant speaks about
+          have hc : CInvG C { c0 with credit := c0.credit - 1 } items := by
+            intro hg
+            have := hc0 hg
+            exact ⟨this.st.transfer rfl rfl rfl, this.bk.transfer rfl rfl rfl rfl rfl, this.rx, this.cl⟩
+          generalize hcdef : ({ c0 with credit := c0.credit - 1 } : Conn) = c at h hc
           have hlt : idx < s.streams.length := by
             rcases Nat.lt_or_ge idx s.streams.length with h1 | h1
             · exact h1
@@ -504,6 +515,7 @@ def EvOK (C : Consts) (s : S) : Ev → Prop
   | .connect c => c.good = true → FreshOK C c
   | .arrive id b => ∀ c ∈ s.all, c.id = id → c.good = true → b = c.fut.take b.length
   | .close id => ∀ c ∈ s.all, c.id = id → c.good = true → c.fut = []
+  | .produce _ _ => True
   | .run _ => True
 
 theorem cinv_arrive (C : Consts) (c : Conn) (pend) (b : List Byte) (h : CInv C c pend)
@@ -559,6 +571,7 @@ theorem mem_all_of (s : S) (c : Conn) :
 
 theorem good_arriveC (b : List Byte) (c : Conn) : (arriveC b c).good = c.good := rfl
 theorem good_closeC (c : Conn) : (closeC c).good = c.good := rfl
+theorem good_produceC (n : Nat) (c : Conn) : (produceC n c).good = c.good := rfl
 
 /-- every event preserves the global invariant -/
 theorem step_inv (C : Consts) (hstep : 0 < C.step) (sizes : Nat → Nat) (s : S) (ev : Ev)
@@ -600,6 +613,31 @@ theorem step_inv (C : Consts) (hstep : 0 < C.step) (sizes : Nat → Nat) (s : S)
       intro c pend hm hc
       by_cases hid : c.id = id
       · rw [if_pos hid]; intro hg; exact cinv_close C c pend (hc hg) (hev c hm hid hg)
+      · rw [if_neg hid]; exact hc
+    refine ⟨?_, ?_, ?_, ?_⟩
+    · rw [forall_pos_iff_mem]
+      intro x hx
+      obtain ⟨c, hc, rfl⟩ := List.mem_map.mp hx
+      exact key c [] (mem_all_of s c (Or.inl hc)) ((forall_pos_iff_mem _ _).mp g.conns c hc)
+    · intro x hx
+      obtain ⟨c, hc, rfl⟩ := List.mem_map.mp hx
+      exact key c [] (mem_all_of s c (Or.inr (Or.inl hc))) (g.listen c hc)
+    · intro j x hx
+      obtain ⟨p, hp, rfl⟩ := List.mem_map.mp (List.mem_of_getElem? hx)
+      obtain ⟨j', hj'⟩ := List.mem_iff_getElem?.mp hp
+      exact key p.2 p.1 (mem_all_of s p.2 (Or.inr (Or.inr (Or.inl ⟨p, hp, rfl⟩)))) (g.streams j' p hj')
+    · intro x hx
+      obtain ⟨c, hc, rfl⟩ := List.mem_map.mp hx
+      have := g.dead c hc
+      by_cases hid : c.id = id
+      · rw [if_pos hid]; intro hg; exact ⟨(this hg).1.transfer rfl rfl rfl, (this hg).2.transfer rfl rfl rfl rfl rfl⟩
+      · rw [if_neg hid]; exact this
+
+  | produce id n =>
+    have key : ∀ c pend, c ∈ s.all → CInvG C c pend → CInvG C (if c.id = id then produceC n c else c) pend := by
+      intro c pend hm hc
+      by_cases hid : c.id = id
+      · rw [if_pos hid]; intro hg; have := hc hg; exact ⟨this.st.transfer rfl rfl rfl, this.bk.transfer rfl rfl rfl rfl rfl, this.rx, this.cl⟩
       · rw [if_neg hid]; exact hc
     refine ⟨?_, ?_, ?_, ?_⟩
     · rw [forall_pos_iff_mem]
